@@ -149,11 +149,17 @@ func (p *exeParser) readField() (f *Field, err error) {
 	var b byte
 	var token string
 
+	// The first character of the field has been looked at and put back so
+	// the current position is the start of the field. Taking the position
+	// after reading the token is off when the token is followed by a
+	// newline, the line would be the next one and the column negative.
+	line := p.line
+	col := p.col
 	token, err = p.readToken()
 	if len(token) == 0 && err == nil {
 		err = parseError(p.line, p.col, "a field name can not be blank")
 	}
-	f = &Field{SelBase: SelBase{line: p.line, col: p.col - len(token)}}
+	f = &Field{SelBase: SelBase{line: line, col: col}}
 	if err == nil {
 		b, err = p.skipSpace()
 	}
